@@ -16,7 +16,9 @@ import (
 	"io/fs"
 	"os"
 	"path/filepath"
+	"sort"
 	"strings"
+	"time"
 
 	"github.com/basekick-labs/arc/internal/cluster/raft"
 	"github.com/basekick-labs/arc/internal/edgesync"
@@ -27,6 +29,17 @@ import (
 )
 
 var scratch = fmt.Sprintf("/dev/shm/verif.c08.%d", os.Getpid())
+
+// vio buffers the violations of the passes that run in the parent process while SpawnShards merges
+// the workers' results into run (the engine's merge is not synchronised with Violate).
+type bufViol struct {
+	sig, desc string
+	replay    any
+}
+
+var vioBuf []bufViol
+
+func vio(sig, desc string, replay any) { vioBuf = append(vioBuf, bufViol{sig, desc, replay}) }
 
 func inside(root, p string) bool {
 	rel, err := filepath.Rel(root, p)
@@ -101,13 +114,13 @@ func keysPass(run *ev.Run, maxLen int) (cases, nontrivial int, samples []any) {
 		}
 		sig := func(kind string) string { return kind + "|" + fmt.Sprintf("%q", k) }
 		if fp := be.GetFullPath(k); fp != "" && !inside(root, fp) {
-			run.Violate(sig("GetFullPath-outside-root"), "LocalBackend resolved a key outside its root", map[string]any{"key": k, "resolved": fp})
+			vio(sig("GetFullPath-outside-root"), "LocalBackend resolved a key outside its root", map[string]any{"key": k, "resolved": fp})
 		}
 		werr := be.Write(context.Background(), k, []byte("x"))
 		be.Exists(context.Background(), k)
 		be.StatFile(context.Background(), k)
 		if out := outsideFiles(top, root); len(out) > 0 {
-			run.Violate(sig("file-outside-root"), "a file or directory appeared outside the storage root", map[string]any{"key": k, "outside": out, "write_err": fmt.Sprint(werr)})
+			vio(sig("file-outside-root"), "a file or directory appeared outside the storage root", map[string]any{"key": k, "outside": out, "write_err": fmt.Sprint(werr)})
 			os.RemoveAll(top)
 			os.MkdirAll(filepath.Join(top, "canary"), 0o700)
 			os.WriteFile(filepath.Join(top, "canary", "keep"), []byte("canary"), 0o600)
@@ -115,18 +128,18 @@ func keysPass(run *ev.Run, maxLen int) (cases, nontrivial int, samples []any) {
 			os.WriteFile(filepath.Join(top, "root2", "keep"), []byte("canary"), 0o600)
 		}
 		if b, err := os.ReadFile(filepath.Join(top, "root2", "keep")); err != nil || string(b) != "canary" {
-			run.Violate(sig("sibling-touched"), "a sibling directory whose name extends the root's name was modified", map[string]any{"key": k})
+			vio(sig("sibling-touched"), "a sibling directory whose name extends the root's name was modified", map[string]any{"key": k})
 			os.MkdirAll(filepath.Join(top, "root2"), 0o700)
 			os.WriteFile(filepath.Join(top, "root2", "keep"), []byte("canary"), 0o600)
 		}
 		if b, err := os.ReadFile(filepath.Join(top, "canary", "keep")); err != nil || string(b) != "canary" {
-			run.Violate(sig("canary-touched"), "a sibling of the storage root was modified", map[string]any{"key": k})
+			vio(sig("canary-touched"), "a sibling of the storage root was modified", map[string]any{"key": k})
 			os.MkdirAll(filepath.Join(top, "canary"), 0o700)
 			os.WriteFile(filepath.Join(top, "canary", "keep"), []byte("canary"), 0o600)
 		}
 		be.Delete(context.Background(), k)
 		if _, err := os.Stat(filepath.Join(top, "canary", "keep")); err != nil {
-			run.Violate(sig("canary-deleted"), "Delete removed a file outside the storage root", map[string]any{"key": k})
+			vio(sig("canary-deleted"), "Delete removed a file outside the storage root", map[string]any{"key": k})
 			os.MkdirAll(filepath.Join(top, "canary"), 0o700)
 			os.WriteFile(filepath.Join(top, "canary", "keep"), []byte("canary"), 0o600)
 		}
@@ -134,26 +147,26 @@ func keysPass(run *ev.Run, maxLen int) (cases, nontrivial int, samples []any) {
 		if raft.ValidateManifestPath(k) == nil {
 			for _, j := range []string{filepath.Join(root, k), filepath.Join(root, strings.ReplaceAll(k, "\\", "/"))} {
 				if !inside(root, j) {
-					run.Violate(sig("manifest-path-accepted-but-escapes"), "ValidateManifestPath accepted a path that leaves the root when joined", map[string]any{"key": k, "joined": j})
+					vio(sig("manifest-path-accepted-but-escapes"), "ValidateManifestPath accepted a path that leaves the root when joined", map[string]any{"key": k, "joined": j})
 				}
 			}
 		}
 		if edgesync.VerifValidateSyncPath(k) == nil {
 			if j := filepath.Join(root, k); !inside(root, j) {
-				run.Violate(sig("sync-path-accepted-but-escapes"), "validateSyncPath accepted a path that leaves the root", map[string]any{"key": k, "joined": j})
+				vio(sig("sync-path-accepted-but-escapes"), "validateSyncPath accepted a path that leaves the root", map[string]any{"key": k, "joined": j})
 			}
 			for _, spoke := range []string{"s1", "a b", "ä"} {
 				if edgesync.VerifValidateSpokeID(spoke) == nil {
 					np := edgesync.NamespacedPath(spoke, k)
 					if j := filepath.Join(root, np); !inside(filepath.Join(root, spoke), j) {
-						run.Violate(sig("namespaced-path-leaves-spoke-namespace"), "an accepted edge-sync path leaves its spoke's namespace", map[string]any{"key": k, "spoke": spoke, "joined": j})
+						vio(sig("namespaced-path-leaves-spoke-namespace"), "an accepted edge-sync path leaves its spoke's namespace", map[string]any{"key": k, "spoke": spoke, "joined": j})
 					}
 				}
 			}
 		}
 		if edgesync.VerifValidateSpokeID(k) == nil {
 			if j := filepath.Join(root, edgesync.NamespacedPath(k, "f.parquet")); !inside(root, j) || filepath.Dir(j) == root {
-				run.Violate(sig("spoke-id-accepted-but-escapes"), "validateSpokeID accepted an id that does not name a sub-directory of the root", map[string]any{"spoke": k, "joined": j})
+				vio(sig("spoke-id-accepted-but-escapes"), "validateSpokeID accepted an id that does not name a sub-directory of the root", map[string]any{"spoke": k, "joined": j})
 			}
 		}
 		if len(samples) < 6 && tricky && i%97 == 0 {
@@ -264,7 +277,7 @@ func atomicityPass(run *ev.Run) (cases, nontrivial int, samples []any) {
 		}
 		ops, _, final, exists, err := runOnce(-1, -1)
 		if err != nil || !exists || !bytes.Equal(final, newC) {
-			run.Violate(fmt.Sprintf("crash-free-%s-does-not-store-content|size=%d,chunk=%d,pre=%s", c.op, c.size, c.chunk, c.pre), "the operation without any crash did not leave the intended content", map[string]any{"case": c, "err": fmt.Sprint(err)})
+			vio(fmt.Sprintf("crash-free-%s-does-not-store-content|size=%d,chunk=%d,pre=%s", c.op, c.size, c.chunk, c.pre), "the operation without any crash did not leave the intended content", map[string]any{"case": c, "err": fmt.Sprint(err)})
 			continue
 		}
 		if len(samples) < 4 {
@@ -285,7 +298,7 @@ func atomicityPass(run *ev.Run) (cases, nontrivial int, samples []any) {
 				cases++
 				_, died, fin, ex, _ := runOnce(k, torn)
 				if !died {
-					run.Violate("crash-point-not-reached", "replaying the same operation did not reach the recorded file-system call", map[string]any{"case": c, "k": k})
+					vio("crash-point-not-reached", "replaying the same operation did not reach the recorded file-system call", map[string]any{"case": c, "k": k})
 					continue
 				}
 				nontrivial++
@@ -297,7 +310,7 @@ func atomicityPass(run *ev.Run) (cases, nontrivial int, samples []any) {
 					if ex {
 						state = fmt.Sprintf("%d bytes that are neither the old nor the new content", len(fin))
 					}
-					run.Violate(fmt.Sprintf("partial-file-at-final-path|%s,pre=%s,crash-before=%s", c.op, c.pre, op.Kind), "after a crash the final path holds "+state,
+					vio(fmt.Sprintf("partial-file-at-final-path|%s,pre=%s,crash-before=%s", c.op, c.pre, op.Kind), "after a crash the final path holds "+state,
 						map[string]any{"case": c, "crash_before_op": op, "torn": torn, "final_len": len(fin)})
 				}
 			}
@@ -308,23 +321,75 @@ func atomicityPass(run *ev.Run) (cases, nontrivial int, samples []any) {
 
 func main() {
 	run := ev.Start("C08", "fault_enumeration")
+	if shard, shards, isWorker := ev.Shard(); isWorker {
+		historyWorker(run, shard, shards) // exits
+	}
 	defer os.RemoveAll(scratch)
 	run.Coverage["exhaustive"] = true
 	maxLen := 4
 	if !run.Quick() {
 		maxLen = 5
 	}
+	// (C) histories: worker processes (the crash shim is process-global), concurrently with (A) and (B)
+	type shardOut struct {
+		cnt      map[string]int64
+		samples  []any
+		complete bool
+	}
+	hch := make(chan shardOut, 1)
+	var histWall time.Duration
+	go func() {
+		t0 := time.Now()
+		c, s, ok := run.SpawnShards(16)
+		histWall = time.Since(t0)
+		hch <- shardOut{c, s, ok}
+	}()
 	kc, kn, ks := keysPass(run, maxLen)
 	fmt.Printf("keys: %d keys (%d containing a traversal/NUL/absolute/backslash token)\n", kc, kn)
 	ac, an, as := atomicityPass(run)
 	fmt.Printf("atomicity: %d crash states\n", ac)
-	run.Coverage["evaluations"] = kc + ac
-	run.Coverage["distinct_nontrivial"] = kn + an
-	run.Coverage["rule"] = fmt.Sprintf("keys: every string of <=%d tokens over {a,/,..,.,NUL,backslash,ä,space,*,dot-NUL-dot,the name of a sibling directory that extends the root's name} plus its absolute and trailing-slash forms and 10 hand-written traversal shapes; non-trivial = contains a traversal, NUL, absolute or backslash token. atomicity: Write/WriteReader/AppendReader x sizes {0,1,5,70000} x reader chunkings x pre-states {absent, old final, stale .part, resumable .part}; one crash state per mutating file-system call of the operation and per torn length of each write (all lengths <=64 bytes, else 1, half, len-1); each crash state is distinct and non-trivial (the process died mid-operation)", maxLen)
-	run.Coverage["samples"] = append(ks, as...)
+	ho := <-hch
+	for _, v := range vioBuf {
+		run.Violate(v.sig, v.desc, v.replay)
+	}
+	if !ho.complete {
+		run.Coverage["exhaustive"] = false
+	}
+	plans := histPlans(run.Quick())
+	planText, alNames := describePlans(plans)
+	outcomes := 0
+	var outcomeList []string
+	for k := range ho.cnt {
+		if strings.HasPrefix(k, "outcome|") {
+			outcomes++
+			outcomeList = append(outcomeList, strings.TrimPrefix(k, "outcome|"))
+		}
+	}
+	sort.Strings(outcomeList)
+	hh, hc := int(ho.cnt["hist_histories"]), int(ho.cnt["hist_crash_states"])
+	fmt.Printf("histories: %d histories (%s), %d crash states of their last operation, %d executions; %d distinct (last operation as met, final before->after) outcomes; resumed appends that completed a file: %d, refused/failed: %d; raw failures: %d (%.1fs in 16 worker processes)\n",
+		hh, planText, hc, ho.cnt["hist_runs"], outcomes, ho.cnt["hist_append_promoted_complete_file"], ho.cnt["hist_append_refused_or_failed"], ho.cnt["hist_raw_failures"], histWall.Seconds())
+	run.Coverage["evaluations"] = kc + ac + hh + hc
+	run.Coverage["distinct_nontrivial"] = kn + an + hc
+	run.Coverage["rule"] = fmt.Sprintf("keys: every string of <=%d tokens over {a,/,..,.,NUL,backslash,ä,space,*,dot-NUL-dot,the name of a sibling directory that extends the root's name} plus its absolute and trailing-slash forms and 10 hand-written traversal shapes; non-trivial = contains a traversal, NUL, absolute or backslash token. atomicity: Write/WriteReader/AppendReader x sizes {0,1,5,70000} x reader chunkings x pre-states {absent, old final, stale .part, resumable .part}; one crash state per mutating file-system call of the operation and per torn length of each write (all lengths <=64 bytes, else 1, half, len-1); each crash state is distinct and non-trivial (the process died mid-operation). histories: %s, all on one key, alphabets listed under history_alphabets (two content versions P=8 bytes, Q=6 bytes; reader pieces of 3 bytes), complete run of each history plus one crash state per mutating file-system call and per torn write length of its LAST operation; evaluations counts each history once plus each crash state, non-trivial = the crash states (a history x a crash point of its last operation; distinct because the history or the crash point differs)", maxLen, planText)
+	run.Coverage["samples"] = append(append(ks, as...), ho.samples...)
 	run.Coverage["keys"] = kc
 	run.Coverage["crash_states"] = ac
+	run.Coverage["history_alphabets"] = alNames
+	run.Coverage["history_plan"] = planText
+	run.Coverage["histories"] = hh
+	run.Coverage["history_crash_states"] = hc
+	run.Coverage["history_executions"] = ho.cnt["hist_runs"]
+	run.Coverage["history_distinct_outcomes"] = outcomes
+	run.Coverage["history_outcomes"] = outcomeList
+	run.Coverage["history_resumed_appends_completing_the_file"] = ho.cnt["hist_append_promoted_complete_file"]
+	run.Coverage["history_appends_refused_or_failed"] = ho.cnt["hist_append_refused_or_failed"]
+	run.Coverage["history_last_op_changed_final"] = ho.cnt["hist_last_op_changed_final"]
+	run.Coverage["history_raw_failures"] = ho.cnt["hist_raw_failures"]
+	run.Coverage["history_appends_onto_unexpected_staging_that_promoted"] = ho.cnt["hist_append_onto_unexpected_staging_promoted"]
+	run.Coverage["history_beyond_a_reported_violation"] = ho.cnt["hist_beyond_a_reported_violation"]
 	os.RemoveAll(scratch)
 	run.Assume("crash model: process crash (every completed system call is visible, nothing after the crash point reaches the disk); power-loss reordering is not modelled because LocalBackend never fsyncs and the property speaks of crash points between file-system operations")
+	run.Assume("histories are sequential (one backend call at a time); a concurrent writer of the same key is represented by the state it leaves between two calls of the history, not by interleaving inside one call")
 	run.Finish()
 }
